@@ -4941,6 +4941,66 @@ def r_manager_copy(P, R):
 r_manager_copy.NAME = 'R-INVMAP(clone model)'
 
 
+def json_reordering_model(P, R):
+    """`dd._copy._load_json` interpreted on an empty file (which it
+    refuses) and on a file of one header line, against a manager that
+    records `configure`: whatever `load_order` is, whatever the way out,
+    the reordering switch of the manager is afterwards what it was before
+    the call (C09: dynamic reordering is still enabled afterwards; C17:
+    a failed load changes nothing)."""
+    f = P.func('dd._copy._load_json', required=False)
+    if f is None:
+        return None
+    resolver = interp.ModuleEnv(P, 'dd._copy')
+    prm = list(f.params)
+    problems = dict()
+    n = 0
+    try:
+        for lines in ([], ['{\n']):
+            for load_order in (False, True):
+                for before in (True, False):
+                    n += 1
+                    state = {'reordering': before}
+
+                    def configure(m, call, args, kw):
+                        old = dict(state)
+                        if 'reordering' in kw:
+                            state['reordering'] = kw['reordering']
+                        return old
+                    stubs = {'configure': configure,
+                             'assert_consistent': lambda m, c, a, k: None}
+                    mgr = interp.Sym('manager', {})
+                    env = {prm[0]: iter(list(lines)), prm[1]: mgr,
+                           prm[2]: load_order, prm[3]: dict()}
+                    out, _ = interp.run_function(
+                        f.node, env, stubs, resolver)
+                    if state['reordering'] is not before:
+                        problems.setdefault('reordering-left', (
+                            f'_load_json on a file of {len(lines)} line(s) '
+                            f'with load_order={load_order} ends '
+                            f'({out[0]}) with reordering = '
+                            f'{state["reordering"]!r}; it was {before!r} '
+                            'before the call'))
+    except (interp.Unknown, KeyError) as e:
+        R.undecided('R-REORD', f.qualname, 'switch model', str(e))
+        return None
+    for sub, msg in sorted(problems.items()):
+        R.violation('R-REORD', sub, f.qualname, 'configure', msg,
+                    unit=f.unit.rel, line=f.lineno)
+    if not problems:
+        R.holds('R-REORD', f.qualname,
+                f'switch model ({n} loads): the reordering switch is '
+                'afterwards what it was before, on every way out')
+    return n
+
+
+def r_json_reordering(P, R):
+    n = json_reordering_model(P, R)
+    if n is not None:
+        R.floor('R-REORD loads of the switch model', n, 8)
+r_json_reordering.NAME = 'R-REORD(json switch model)'
+
+
 def dot_model(P, R):
     """`dd.bdd._to_dot(roots, bdd)` interpreted (with `dd._utils.DotGraph`)
     on small managers: the graph it builds must show, for every node
